@@ -2125,6 +2125,7 @@ GENERATORS = {
     "GenReduce.v": lambda src: __import__("harness.translate_reduce", fromlist=["translate_reduce"]).translate_reduce(src),
     "GenPartition.v": lambda src: __import__("harness.translate_partition", fromlist=["translate_partition"]).translate_partition(src),
     "GenJoinIndex.v": lambda src: __import__("harness.translate_partition", fromlist=["translate_join_index"]).translate_join_index(src),
+    "GenSanitize.v": lambda src: __import__("harness.translate_sanitize", fromlist=["translate_sanitize"]).translate_sanitize(src),
 }
 
 
@@ -2184,8 +2185,9 @@ SCRIPTS = [            # (committed proof script, generated modules it needs)
     ("EqReduce.v", ["GenReduce.v"]),
     ("EqPartition.v", ["GenPartition.v"]),
     ("EqJoinIndex.v", ["GenJoinIndex.v"]),
+    ("EqSanitize.v", ["GenSanitize.v"]),
 ]
-NEEDED_VO = ["Base/GenPrelude", "Props/C04", "Props/C07", "Props/C18", "Props/C11", "Props/C16", "Props/C05", "Props/C19", "Props/C14", "Props/C06", "Props/C12", "Props/C09"]
+NEEDED_VO = ["Base/GenPrelude", "Props/C04", "Props/C07", "Props/C18", "Props/C11", "Props/C16", "Props/C05", "Props/C19", "Props/C14", "Props/C06", "Props/C12", "Props/C09", "Props/C17"]
 BUDGET = float(__import__("os").environ.get("SERIF_TRANSLATE_BUDGET", "28"))   # seconds for one run()
 
 HARD_TIMEOUT = 120.0   # seconds for one coqc that MUST run (generated file, first pass over a proof script)
